@@ -97,6 +97,9 @@ class CreateCheck:
             "shapes include a child named like the root and payload files "
             "named like the output metafile",
             "piece length 2^25 (thorough also 2^20, 2^24) with tiny files",
+            "on the CLI sub-catalogue every creator is also called with the "
+            "path as pathlib.Path, through the `content` alias, and with the "
+            "piece length as text / as exponent; results must be identical",
             "a sub-catalogue with all-zero file contents and one with a "
             "content root whose name has dots and a space",
             "long single files in S: every size up to 2200 (thorough 4200) "
@@ -306,6 +309,39 @@ class CreateCheck:
                     out[label] = [("creator-raised:" + type(e).__name__,
                                    str(e)[:200])]
                 trans += 1
+                # the same request in other library value forms: the path as a
+                # pathlib.Path, the `content` alias, the piece length as text
+                if cli and P is not None and B == REAL_B and \
+                        not out[label]:
+                    import pathlib
+                    base_m = bencode.plain(bencode.decode(raw, strict=False))
+                    base_m.pop(b"creation date", None)
+                    exp = P.bit_length() - 1
+                    forms = {"Path": dict(path=pathlib.Path(path),
+                                          piece_length=P),
+                             "content": dict(content=path, piece_length=P),
+                             "plstr": dict(path=path, piece_length=str(P))}
+                    if 14 <= exp <= 25:
+                        forms["plexp"] = dict(path=path, piece_length=exp)
+                    for form, fkw in forms.items():
+                        of2 = of + "." + form
+                        try:
+                            with tf.quiet():
+                                t = tf.CREATORS[creator](outfile=of2,
+                                                         progress=0,
+                                                         **dict(kw, **fkw))
+                                t.write()
+                            with open(of2, "rb") as f:
+                                m2 = bencode.plain(bencode.decode(
+                                    f.read(), strict=False))
+                            m2.pop(b"creation date", None)
+                            if m2 != base_m:
+                                out[label].append(
+                                    ("api-form-differs:" + form, None))
+                        except Exception as e:  # noqa
+                            out[label].append(("api-form-raised:" + form + ":"
+                                               + type(e).__name__, None))
+                        trans += 1
             if cli and pid in CLI_FLAGS:
                 of = os.path.join(parent, "cli.torrent")
                 argv = ["create", path, "-o", of, "--prog", "0"] + CLI_FLAGS[pid]
